@@ -28,6 +28,8 @@ Addrs == {"empty", "0xabc", "utf8"}
 Senders ==
     {[caller |-> "alice", via |-> "direct", through |-> "none", auth |-> au] : au \in {{"alice"}, {"bob"}, {}, {"alice", "bob"}}}
     \cup {[caller |-> "pr1", via |-> "self", through |-> "none", auth |-> {}]}
+    \* the gateway's own address named as sender by an outside caller: nobody authorised it
+    \cup {[caller |-> "gateway", via |-> "direct", through |-> "none", auth |-> au] : au \in {{}, {"bob"}}}
     \cup {[caller |-> "alice", via |-> "other", through |-> "pr1", auth |-> au] : au \in {{"alice"}, {"bob"}, {}}}
 
 Acts(s) ==
